@@ -466,7 +466,8 @@ Definition sv_bind (p : sv_params) (price deposit qos bal : Z) : res :=
   else if (sv_maxto p) mod two64 <? qos then Reject          (* qos > uint64(maxReqTimeout) *)
   else
     let m0 := price * sv_mult p in
-    if m0 <? 0 then Panic 401                                (* NewCoin(base, price * multiple) negative *)
+    if negb (int_ok m0) then Panic 402                       (* basePrice.Mul(minDepositMultiple): "integer overflow" *)
+    else if m0 <? 0 then Panic 401                                (* NewCoin(base, price * multiple) negative *)
     else
       let pst := coins_amount_of 1 (sv_mindep p) in
       let other := existsb (fun c => negb (c_denom c =? 1)) (sv_mindep p) in
@@ -688,9 +689,10 @@ Definition cs_op_wf (o : cs_op) : Prop :=
   | _ => True
   end.
 
+Definition two192 : Z := 2 ^ 192.
 Definition sv_op_wf (o : sv_op) : Prop :=
   match o with
-  | SvBind price _ _ _ => 0 <= price
+  | SvBind price _ _ _ => 0 <= price < two192
   | SvRespond fee _ => 0 <= fee < two255
   | SvBlocks deps => Forall (fun d => 0 <= d < two255) deps
   | _ => True
@@ -708,15 +710,20 @@ Definition tk_op_wf (o : tk_op) : Prop :=
 Definition cs_small (p : cs_params) : Prop := amt_or0 (c_amt (cs_pcf p)) < two255.
 Definition fm_small (p : fm_params) : Prop := amt_or0 (c_amt (fm_pcf p)) < two255.
 Definition tk_small (p : tk_params) : Prop := amt_or0 (c_amt (tk_fee p)) < two255.
+(** service: the minimum deposit multiple is an int64; with a price of 2^193 or more the product
+    [price * multiple] can overflow the 256-bit Int for a large validated multiple (finding), while
+    under the default multiple (1000) prices up to 2^246 do not. *)
+Definition sv_small (p : sv_params) : Prop := sv_mult p < 2 ^ 63.
 (** same family in htlc: [FixedFee.Add(MinSwapAmount)] overflows the 256-bit Int *)
 Definition ht_small (p : ht_params) : Prop :=
   Forall (fun a => amt_or0 (a_fixed a) + amt_or0 (a_min a) < two256) p.
 Definition ps_small (s : pstate) : Prop :=
-  cs_small (ps_cs s) /\ fm_small (ps_fm s) /\ tk_small (ps_tk s) /\ ht_small (ps_ht s).
+  cs_small (ps_cs s) /\ fm_small (ps_fm s) /\ tk_small (ps_tk s) /\ ht_small (ps_ht s) /\ sv_small (ps_sv s).
 
 Definition step_wf (st : pstep) : Prop :=
   match st with
   | UpdCS _ p => cs_small p | UpdFM _ p => fm_small p | UpdTK _ p => tk_small p | UpdHT _ p => ht_small p
+  | UpdSV _ p => sv_small p
   | OpCS o => cs_op_wf o | OpSV o => sv_op_wf o | OpTK o => tk_op_wf o
   | _ => True
   end.
